@@ -25,11 +25,15 @@ type c06Op struct {
 	a, b   int
 	flag   bool
 	vals   []xhttp2.Setting
-	rogue  bool // the peer deliberately leaves the protocol here
-	head   bool // o: HEAD request
-	trlp1  int  // o: 0 = no trailers, else 1 + the length of the trailer value
-	status int  // ph: 0 = 200 for the first block / a trailer block afterwards, -1 = no :status, else literal
-	clp1   int  // ph: 0 = no content-length, else 1 + its value
+	rogue  bool   // the peer deliberately leaves the protocol here
+	head   bool   // o: HEAD request
+	trlp1  int    // o: 0 = no trailers, else 1 + the length of the trailer value
+	status int    // ph: 0 = 200 for the first block / a trailer block afterwards, -1 = no :status, else literal
+	clp1   int    // ph: 0 = no content-length, else 1 + its value
+	cut    int    // oc: the request is cancelled after that many payload octets of its header block
+	sub    string // h: the operation issued while the writer of stream s is parked in a DATA frame: x r c
+	s2     int    // h: its stream index
+	mid    bool   // h: park in the middle of what the writer can send (else after its first octet)
 }
 
 type c06Run struct {
@@ -47,6 +51,9 @@ type c06Run struct {
 	noForcedWake bool
 	lostWakeups  []string // operations after which a RoundTrip that could go ahead was left asleep
 	exactHits    int      // header / trailer blocks of exactly the targeted length (adaptive scripts)
+	held         int      // operations issued while a writer was parked inside a DATA frame
+	streamOwed   int64    // worst stream-level credit owed on a response that is still being read
+	streamOwedAt uint32
 }
 
 // c06Exec runs a script on a fresh connection. gen, when non-nil, produces the next operation
@@ -114,6 +121,31 @@ func c06ExecMode(t testing.TB, cfg c06Cfg, script []c06Op, gen func(e *c06Env, n
 		case "o":
 			tok = e.open(op.a, op.flag, op.b, c06Shape{head: op.head, trailer: op.trlp1 - 1})
 			e.opened[len(e.opened)-1].tokIdx = len(run.tokens)
+		case "oc":
+			tok = e.openCancel(op.a, op.flag, op.b, c06Shape{head: op.head, trailer: op.trlp1 - 1}, op.cut)
+			e.opened[len(e.opened)-1].tokIdx = len(run.tokens)
+		case "h":
+			st := e.streams[id(op)]
+			var st2 *c06Stream
+			if op.s2 >= 0 && op.s2 < len(e.order) {
+				st2 = e.streams[e.order[op.s2]]
+			}
+			if st == nil || st2 == nil || st == st2 || e.pending != nil ||
+				!(st.body != nil && !st.dead() && !st.aborted && st.released == st.recvd && st.body.remaining() > 0) {
+				break
+			}
+			switch op.sub {
+			case "r":
+				if st2.res != nil && !st2.noBody && !st2.closedB && !st2.readErr && st2.buffered > 0 {
+					tok = e.feedHeld(st.id, op.a, op.mid, "r", st2.id, op.b)
+				}
+			case "x":
+				if st2.res != nil && !st2.closedB {
+					tok = e.feedHeld(st.id, op.a, op.mid, "x", st2.id, 0)
+				}
+			case "c":
+				tok = e.feedHeld(st.id, op.a, op.mid, "c", st2.id, 0)
+			}
 		case "f":
 			if st := e.streams[id(op)]; st != nil && st.body != nil && !st.dead() && !st.aborted && st.released == st.recvd && st.body.remaining() > 0 {
 				tok = e.feed(st.id, op.a)
@@ -190,6 +222,10 @@ func c06ExecMode(t testing.TB, cfg c06Cfg, script []c06Op, gen func(e *c06Env, n
 	run.history = append([]string{}, e.hist...)
 	run.lostWakeups = append([]string{}, e.lostWakeups...)
 	run.exactHits = e.exactHits
+	run.held = e.heldCount
+	if !e.closed {
+		run.streamOwed, run.streamOwedAt = e.streamCreditOwed()
+	}
 	run.timeouts = e.timeouts
 	if !e.closed {
 		run.creditOwed = e.creditOwed()
@@ -312,7 +348,15 @@ func c06Judge(s *verifh.Session, runs []*c06Run) {
 		unexpectedClose := r.closedAt >= 0 && !r.rogue && !r.idleClose
 		// credit: at quiescence the client owes the peer less than inflowMinRefresh beyond what is
 		// still unread (an independent reading of "credit is returned for every consumed byte")
-		creditOK := r.creditOwed >= 0 && r.creditOwed < 4096
+		// (the same per response that is still being received and read, at stream level)
+		creditOK := r.creditOwed >= 0 && r.creditOwed < 4096 && r.streamOwed < 4096
+		if r.streamOwed >= 4096 {
+			s.Count("stream-credit-owed")
+			r.human += fmt.Sprintf(" [stream %d is owed %d octets of stream-level credit]", r.streamOwedAt, r.streamOwed)
+		}
+		for k := 0; k < r.held; k++ {
+			s.Count("held-op")
+		}
 		if !creditOK {
 			s.Count("credit-owed")
 		}
@@ -469,7 +513,7 @@ type c06Script struct {
 	cfg    c06Cfg
 	script []c06Op
 	name   string
-	nowake bool                            // run in the wake-up lane (no forced broadcast)
+	nowake bool                          // run in the wake-up lane (no forced broadcast)
 	gen    func(e *c06Env, n int) *c06Op // adaptive continuation of the script
 }
 
@@ -498,7 +542,9 @@ func c06Directed() []c06Script {
 	}
 	// request shapes and response kinds of round 4
 	openHead := func() c06Op { return c06Op{kind: "o", flag: true, head: true} }
-	openTrl := func(body int, known bool, trl int) c06Op { return c06Op{kind: "o", a: body, flag: known, trlp1: trl + 1} }
+	openTrl := func(body int, known bool, trl int) c06Op {
+		return c06Op{kind: "o", a: body, flag: known, trlp1: trl + 1}
+	}
 	resp := func(s int, end bool, status, cl int) c06Op {
 		return c06Op{kind: "ph", s: s, flag: end, status: status, clp1: cl + 1}
 	}
@@ -636,6 +682,43 @@ func c06Directed() []c06Script {
 	// MAX_CONCURRENT_STREAMS raises it to the default of 1000: that must wake the 101st request)
 	addNoWake("wake-first-settings-default", strict, cat(rep(100, open(0, true, 0)), []c06Op{open(0, true, 0), S(), ph(0, true), ping})...)
 	addNoWake("wake-goaway", strict, S(c06Set(xhttp2.SettingMaxConcurrentStreams, 1)), open(0, true, 0), open(0, true, 0), c06Op{kind: "pg", s: -1, a: 1}, ph(0, true))
+	// ---- round 5
+	// 22. a request cancelled at every kind of point of a multi-frame header block: inside the
+	//     first frame, at a frame boundary +-1, inside a CONTINUATION frame, one octet before the
+	//     end; with and without a body / a HEADERS priority; two frame sizes. The block is written
+	//     to its END_HEADERS whatever happens, RST_STREAM follows it
+	oc := func(body int, known bool, pad, cut int) c06Op {
+		return c06Op{kind: "oc", a: body, flag: known, b: pad, cut: cut}
+	}
+	for _, c := range []c06Cfg{def, chrome} {
+		var ops []c06Op
+		ops = append(ops, S())
+		for _, cut := range []int{1, 16378, 16379, 16380, 16383, 16384, 16385, 20000, 32768, 32769, 49151, 49152, 49999} {
+			ops = append(ops, oc(0, true, 50000, cut))
+		}
+		ops = append(ops, oc(100, true, 40000, 16384), oc(70000, false, 33000, 20000), c06Op{kind: "oc", a: 10, flag: true, b: 40000, trlp1: 6, cut: 32768},
+			S(c06Set(xhttp2.SettingMaxFrameSize, 20000)), oc(0, true, 50000, 19995), oc(0, true, 50000, 20000), oc(0, false, 50000, 40001), oc(0, true, 20100, 20000), ping)
+		add("cancel-in-header-block-"+c.name, c, ops...)
+	}
+	// 23. Body.Close / Body.Read / cancel on one stream while another stream's body writer is parked
+	//     in the middle of a DATA frame (cc.wmu held): Close at every state of the response - data
+	//     unread, partly read, fully received (END_STREAM seen) and unread, nothing unread -; the
+	//     credit is committed under cc.mu and the WINDOW_UPDATE has to wait for cc.wmu, not be dropped
+	held := func(s int, sub string, s2, m int, mid bool) c06Op {
+		return c06Op{kind: "h", s: s, sub: sub, s2: s2, b: m, mid: mid}
+	}
+	for _, c := range []c06Cfg{def, small} {
+		add("held-close-"+c.name, c, S(c06Set(xhttp2.SettingInitialWindowSize, 1<<20)), wu(-1, 1<<20), open(400000, true, 0),
+			open(0, true, 0), ph(1, false), pd(1, 16384, 0, false), pd(1, 5000, 0, false), held(0, "x", 1, 0, false),
+			open(0, true, 0), ph(2, false), pd(2, 8192, 0, false), pd(2, 8192, 7, true), held(0, "x", 2, 0, true),
+			open(0, true, 0), ph(3, false), pd(3, 16384, 0, false), held(0, "r", 3, 5000, false), held(0, "r", 3, 1000, true), held(0, "r", 3, 3000, false), held(0, "x", 3, 0, false),
+			open(0, true, 0), ph(4, false), pd(4, 4095, 0, false), held(0, "x", 4, 0, true),
+			open(0, true, 0), ph(5, false), pd(5, 6000, 0, false), rd(5, 6000), held(0, "x", 5, 0, false),
+			open(100, true, 0), held(0, "c", 6, 0, false),
+			open(0, true, 0), ph(7, false), pd(7, 9000, 0, true), held(0, "r", 7, 100000, true),
+			// several later requests still get through a peer that enforces its windows
+			open(0, true, 0), ph(8, false), pd(8, 16384, 0, false), pd(8, 16384, 0, true), rd(8, 100000), ping)
+	}
 	// 21. header blocks and trailer blocks of exactly k frames (END_HEADERS on a full frame)
 	for _, c := range []c06Cfg{def, chrome} {
 		out = append(out, c06Script{cfg: c, name: "exact-header-blocks-" + c.name, gen: c06ExactBlocks(c)})
@@ -856,6 +939,16 @@ func c06Gen(r *rand.Rand, maxOps int) func(e *c06Env, n int) *c06Op {
 				case 1, 2:
 					op.trlp1 = 1 + verifh.Pick(r, []int{0, 5, 100, 16300, 16384, 20000, 40000}) // declared trailers (also without a body)
 				}
+				if pad >= 16300 && r.Intn(2) == 0 && !(e.cfg.strict && int64(e.liveCount()) >= e.slotLimit()) {
+					// cancelled while the header block is being written: after 1 octet, around the frame
+					// boundaries of the acknowledged MAX_FRAME_SIZE (with and without the 5 priority
+					// octets), anywhere, one octet before the end of the padding field
+					mf := int(e.maxFrame)
+					cut := verifh.Pick(r, []int{1, mf - 6, mf - 5, mf - 1, mf, mf + 1, 2 * mf, 2*mf + 1, pad - 1, 1 + r.Intn(pad-1)})
+					if cut >= 1 && cut < pad {
+						op.kind, op.cut = "oc", cut
+					}
+				}
 				return op
 			case k < 38: // feed
 				if len(feedable) == 0 || busy {
@@ -865,7 +958,35 @@ func c06Gen(r *rand.Rand, maxOps int) func(e *c06Env, n int) *c06Op {
 				if r.Intn(4) == 0 {
 					nn = verifh.Pick(r, []int{1, 100, 8192, 16383, 16384})
 				}
-				return &c06Op{kind: "f", s: verifh.Pick(r, feedable), a: nn}
+				fs := verifh.Pick(r, feedable)
+				if r.Intn(3) == 0 && e.pending == nil {
+					// an operation on another stream while this stream's writer is parked inside a DATA
+					// frame (cc.wmu held): Body.Close at whatever state the response is in, Body.Read, cancel
+					var cands []c06Op
+					for _, i := range closable {
+						if i != fs {
+							cands = append(cands, c06Op{kind: "h", s: fs, a: nn, sub: "x", s2: i}, c06Op{kind: "h", s: fs, a: nn, sub: "x", s2: i})
+						}
+					}
+					for _, i := range readable {
+						if i != fs {
+							for rep := 0; rep < 3; rep++ {
+								cands = append(cands, c06Op{kind: "h", s: fs, a: nn, sub: "r", s2: i, b: verifh.Pick(r, []int{1, 1000, 3000, 4096, 5000, 65536})})
+							}
+						}
+					}
+					for _, i := range cancellable {
+						if i != fs {
+							cands = append(cands, c06Op{kind: "h", s: fs, a: nn, sub: "c", s2: i})
+						}
+					}
+					if len(cands) > 0 {
+						op := verifh.Pick(r, cands)
+						op.mid = r.Intn(2) == 0
+						return &op
+					}
+				}
+				return &c06Op{kind: "f", s: fs, a: nn}
 			case k < 46:
 				inc := verifh.Pick(r, []int{1, 2, 100, 16383, 16384, 16385, 65535, 100000, 1 << 20, 1 << 24})
 				if r.Intn(3) == 0 || len(live) == 0 {
